@@ -38,6 +38,8 @@ theorem code_shape :
     Generated.C09.hullUpdateIndependentIfs = true ∧
     -- deleteJournal re-checks the size under its exclusive lock, after a Sync (eafecef)
     Generated.C09.deleteJournalRechecksSize = true ∧ Generated.C09.deleteJournalSyncsBeforeRecheck = true ∧
+    -- the visitor of Service.Truncate flushes before it looks at the partition's size, dry run included (466355c)
+    Generated.C09.truncateVisitorSyncsBeforeSize = true ∧
     -- cac5c5d: equal latest timestamps are ordered by source id
     Generated.C09.insertOrdersByTsDescThenSrcAsc = true := by decide
 
@@ -269,11 +271,23 @@ empty to the re-check and is dropped; with it the drop is refused -/
 theorem regress_unflushed_drop :
     deleteJournalSeen true false 0 0 57 = true ∧ deleteJournalSeen true true 0 0 57 = false := by decide
 
-/-- F84 — the DRY run's `size == 0` branch still goes by `Size()` alone: for that same partition it announces the drop
-the real run (rightly) refuses -/
-theorem cex_dry_announces_unflushed_drop :
-    dryAnnouncesDrop 0 = true ∧
-    deleteJournalSeen Generated.C09.deleteJournalRechecksSize Generated.C09.deleteJournalSyncsBeforeRecheck 0 0 57 = false := by
+/-- **For a partition nobody else holds, the dry run announces its drop exactly when the run drops it — acknowledged
+records that are not flushed yet included** (fix 466355c: the visitor flushes before it reads the size, in a dry run
+too; fix eafecef: `deleteJournal` flushes before its re-check). All three shapes are regenerated from the source. -/
+theorem dry_announces_drop_iff_run_drops (confirmed unflushed : Nat) :
+    dryAnnouncesDrop Generated.C09.truncateVisitorSyncsBeforeSize confirmed unflushed =
+      deleteJournalSeen Generated.C09.deleteJournalRechecksSize Generated.C09.deleteJournalSyncsBeforeRecheck
+        0 confirmed unflushed := by
+  have h1 : Generated.C09.deleteJournalRechecksSize = true := by decide
+  have h2 : Generated.C09.deleteJournalSyncsBeforeRecheck = true := by decide
+  have h3 : Generated.C09.truncateVisitorSyncsBeforeSize = true := by decide
+  rw [h1, h2, h3]
+  simp [dryAnnouncesDrop, deleteJournalSeen]
+
+/-- regression of F84 (fixed by 466355c): a dry run that goes by `Size()` alone announces the drop of a partition whose
+57 acknowledged bytes wait for their flush, which the run refuses; with the flush it announces nothing -/
+theorem regress_dry_announces_unflushed_drop :
+    dryAnnouncesDrop false 0 57 = true ∧ dryAnnouncesDrop true 0 57 = false ∧ deleteJournalSeen true true 0 0 57 = false := by
   decide
 
 /-- **DRYRUN announces what the run does — phase I, one partition, nobody else using it**: same immediate report,
